@@ -18,7 +18,7 @@ func init() {
 	core.Register(&core.Check{
 		ID:    "C07",
 		Level: "fault_enumeration",
-		Rule: "the persistence trace (create, write, fsync(file), fsync(dir), rename, unlink, mkdir with resolved absolute paths) of every real install driver is recorded; crash point p ranges over every prefix of the trace; at each p every subset of the directory-entry operations not yet covered by an fsync of their directory may have reached the disk, and file data is durable only up to the file's last fsync; one deviation: for every driver every single hooked file system call is made to fail in turn (EIO) and, whenever the install still reports success (the failed step is one pdfcpu only warns about), that run's trace is put through the same crash enumeration, an acknowledged install having to survive every crash after its return; " +
+		Rule: "the persistence trace (create, write, fsync(file), fsync(dir), rename, unlink, mkdir with resolved absolute paths) of every real install driver is recorded (each driver with the font directory a real directory, four of them also with the path ending in a symbolic link); crash point p ranges over every prefix of the trace; at each p every subset of the directory-entry operations not yet covered by an fsync of their directory may have reached the disk, and file data is durable only up to the file's last fsync; one deviation: for every driver every single hooked file system call is made to fail in turn (EIO) and, whenever the install still reports success (the failed step is one pdfcpu only warns about), that run's trace is put through the same crash enumeration, an acknowledged install having to survive every crash after its return; " +
 			"non-trivial = a crash state in which at least one directory operation is pending",
 		Assume: []string{"persistence model: data durable only after fsync(file); a directory entry operation durable only after fsync(that directory); pending entry operations of one directory may persist in any subset, applied in order; a rename inside one directory is atomic; nothing synced is lost",
 			"trace events are the os-level calls pdfcpu makes (fsync = File.Sync on the file or directory descriptor)"},
@@ -309,13 +309,25 @@ func runC07(r *core.R) {
 			return err
 		}, []string{A, B}},
 	}
+	// the same installs with the font directory reached through a symbolic link (e.g. ~/.config/pdfcpu/fonts
+	// linked onto another volume): every flush has to reach the directory behind the link
+	for _, i := range []int{0, 3, 6, 9} {
+		ld := drivers[i]
+		ld.name += " (font directory is a symbolic link)"
+		drivers = append(drivers, ld)
+	}
 	cwd, _ := os.Getwd()
 	defer os.Chdir(cwd)
 	prep := func(d c07drv, dir string) bool {
 		os.RemoveAll(dir)
 		os.MkdirAll(dir, 0o755)
 		// setup (unhooked)
-		os.MkdirAll(filepath.Join(dir, "fonts"), 0o755)
+		if strings.Contains(d.name, "symbolic link") { // the font directory path ends in a link to a real directory next to it
+			os.MkdirAll(filepath.Join(dir, "fonts-real"), 0o755)
+			os.Symlink("fonts-real", filepath.Join(dir, "fonts"))
+		} else {
+			os.MkdirAll(filepath.Join(dir, "fonts"), 0o755)
+		}
 		os.MkdirAll(filepath.Join(dir, "elsewhere"), 0o755)
 		os.WriteFile(filepath.Join(dir, "a.ttf"), fontA, 0o644)
 		os.WriteFile(filepath.Join(dir, "b.ttf"), fontB, 0o644)
